@@ -149,6 +149,13 @@ func checkC11(c *core.Check) {
 			}
 		}
 	}
+	// seeded random compositions of all pipeline features at once (randkitchen.go)
+	nComp := 8
+	if thorough {
+		nComp = 60
+	}
+	groups = append(groups, randKitchenGroups(rand.New(rand.NewSource(c.Seed+int64(len(groups)))), nComp, "rs", specs, newCase)...)
+	c.Cov["random_compositions"] = nComp
 	run, ok := runPipeline(c, specs, groups)
 	if !ok {
 		return
